@@ -97,6 +97,27 @@ def step (s : St) (op : List String) (impl : String) : LineOut St :=
       monitor := if impl == "lost=0 dup=0" then none
                  else if impl.startsWith "lost=" then some ("line-lost-or-duplicated", s!"racing the gate opening: {impl}")
                  else some ("malformed", impl) }
+  | ["lconc", c, k] =>
+    -- k lines "o0".."o(k-1)" logged, then a monitor attaches while one more line is logged by another goroutine:
+    -- RegisterHandler holds the writer's lock over the whole replay of the backlog (extracted lock shape,
+    -- `C29_logwriter_skeleton`), so the attach and the write are serialised and, in either order, the monitor sees
+    -- the buffered lines before the new one.
+    match c.toNat?, k.toNat? with
+    | some c, some k =>
+      let lw := (List.range k).foldl (fun (lw : LW) i => lw.write s!"o{i}") (LW.new c)
+      let lw := (lw.register 0).write "new"
+      let expect := match alookup lw.handlers 0 with
+        | some ls => showLines ls
+        | none => "none"
+      let m := match parseLines impl with
+        | none => some ("malformed", impl)
+        | some got =>
+          let idx := got.findIdx (· == "new")
+          if (got.drop (idx + 1)).any (· != "new") then
+            some ("attach-overtaken", "a line logged while a monitor was attaching reached it before older buffered lines")
+          else none
+      { state := s, model := some expect, monitor := m }
+    | _, _ => { state := s, model := some "bad-op" }
   | ["lnew", c] =>
     match c.toNat? with
     | some c => { state := { s with lw := LW.new c, cap := c, lAll := [], lReg := [] }, model := some "ok" }
